@@ -367,6 +367,44 @@ func (c *Ctx) c06ReadOnly() {
 		return
 	}
 	cl := c.reach(roots, false, false, true)
+	// function values made on the way (closures, bound methods such as m.step handed to a helper) run there too
+	for changed := true; changed; {
+		changed = false
+		var extra []*ssa.Function
+		for f := range cl {
+			flow.Instrs(f, func(in ssa.Instruction) {
+				for _, op := range in.Operands(nil) {
+					if op == nil || *op == nil {
+						continue
+					}
+					var g *ssa.Function
+					switch x := (*op).(type) {
+					case *ssa.Function:
+						g = x
+					case *ssa.MakeClosure:
+						g, _ = x.Fn.(*ssa.Function)
+					}
+					if g == nil {
+						continue
+					}
+					if u := flow.Unwrap(g); u != nil {
+						g = u
+					}
+					if g.Blocks != nil && !cl[g] && c.P.IsLibrary(g) {
+						extra = append(extra, g)
+					}
+				}
+			})
+		}
+		if len(extra) > 0 {
+			for g := range c.reach(extra, false, false, true) {
+				if !cl[g] {
+					cl[g] = true
+					changed = true
+				}
+			}
+		}
+	}
 	n, bad := 0, 0
 	// reflection writes element-wise into whatever array a destination slice points to; after an earlier
 	// Unmarshal that array can be a decoded message's body (byte-slice fields are set to the message's own
@@ -436,6 +474,55 @@ func (c *Ctx) c06ReadOnly() {
 			}
 			bad++
 			r.Fail("R5", fmt.Sprintf("%s:store-%s.%s", fname(f), tn, strings.Join(fields, ".")), c.pos(st), "a write / serialise / inspect operation stores into the "+tn+" it was given: a retained decoded message changes when it is written or inspected later")
+		})
+	}
+	// … nor into the elements of an AVP list held by such an object (m.AVP[i] = …, copy(m.AVP[…], …)): re-ordering
+	// or replacing members of a retained message is a change of that message just as well
+	listOf := func(v ssa.Value) (string, bool) {
+		for i := 0; i < 6; i++ {
+			if sl, ok := v.(*ssa.Slice); ok {
+				v = sl.X
+				continue
+			}
+			break
+		}
+		ld, ok := v.(*ssa.UnOp)
+		if !ok || ld.Op != token.MUL {
+			return "", false
+		}
+		tn, fld, base, ok := flow.FieldOf(ld)
+		if !ok || (tn != "Message" && tn != "GroupedAVP") || !isAVPSlice(ld.Type()) {
+			return "", false
+		}
+		pr := flow.Peel(base)
+		if _, isParam := pr.(*ssa.Parameter); !isParam && spilledParam(pr) == nil {
+			if u, isLoad := pr.(*ssa.UnOp); !isLoad || isFreshBase(u) {
+				return "", false
+			}
+		}
+		return tn + "." + fld, true
+	}
+	for f := range cl {
+		if !c.P.IsLibrary(f) {
+			continue
+		}
+		flow.Instrs(f, func(in ssa.Instruction) {
+			switch x := in.(type) {
+			case *ssa.Store:
+				if ia, ok := x.Addr.(*ssa.IndexAddr); ok {
+					if what, ok := listOf(ia.X); ok {
+						bad++
+						r.Fail("R5", fmt.Sprintf("%s:store-element-of-%s", fname(f), what), c.pos(x), "a write / serialise / inspect operation replaces an element of "+what+" of the object it was given: a retained decoded message changes (its AVPs are re-ordered or replaced) when it is written or inspected later")
+					}
+				}
+			case *ssa.Call:
+				if b, ok := x.Call.Value.(*ssa.Builtin); ok && b.Name() == "copy" && len(x.Call.Args) == 2 {
+					if what, ok := listOf(x.Call.Args[0]); ok {
+						bad++
+						r.Fail("R5", fmt.Sprintf("%s:copy-into-%s", fname(f), what), c.pos(x), "a write / serialise / inspect operation copies into "+what+" of the object it was given: a retained decoded message changes (its AVPs are re-ordered or replaced) when it is written or inspected later")
+					}
+				}
+			}
 		})
 	}
 	if bad == 0 {
@@ -594,5 +681,51 @@ func (c *Ctx) c06Handlers() {
 	}
 	if n == 0 {
 		r.Undecided("R6", "role:sm-handlers", "-", "no function of package sm takes a *diam.Message")
+	}
+	// the parsers of package smparser only look: the AVP and group objects they are handed (by Unmarshal, which
+	// copies pointers, not objects) are the received message's own, so nothing there stores into a field of a
+	// diam.AVP, diam.GroupedAVP, diam.Message or diam.Header
+	{
+		nf, bad := 0, 0
+		for _, f := range c.P.LibraryFuncs() {
+			if pkgOf(f) == nil || pkgOf(f).Path() != pkgSMParser {
+				continue
+			}
+			nf++
+			flow.Instrs(f, func(in ssa.Instruction) {
+				st, ok := in.(*ssa.Store)
+				if !ok {
+					return
+				}
+				tn, fld, base, ok := flow.FieldOf(st.Addr)
+				if !ok || (tn != "AVP" && tn != "GroupedAVP" && tn != "Message" && tn != "Header") {
+					return
+				}
+				if nt := flow.NamedOf(base.Type()); nt == nil || nt.Obj().Pkg() == nil || nt.Obj().Pkg().Path() != pkgDiam {
+					return
+				}
+				// an object allocated right here is the parser's own
+				root := base
+				for {
+					if u, isU := root.(*ssa.UnOp); isU {
+						root = u.X
+						continue
+					}
+					if fa, isFA := root.(*ssa.FieldAddr); isFA {
+						root = fa.X
+						continue
+					}
+					break
+				}
+				if _, own := root.(*ssa.Alloc); own {
+					return
+				}
+				bad++
+				r.Fail("R6", fmt.Sprintf("%s:stores-into-%s.%s", fname(f), tn, fld), c.pos(st), "a parser of package smparser stores into "+tn+"."+fld+" of an object it was handed: Unmarshal copies AVP pointers, not AVPs, so this is the received message's own object and a message kept by a handler changes after the reader returned it")
+			})
+		}
+		if bad == 0 && nf > 0 {
+			r.Ok("R6", "smparser:read-only-over-message-objects", "-", fmt.Sprintf("%d functions of package smparser store into no field of a diam AVP, group, message or header they were handed", nf))
+		}
 	}
 }
